@@ -275,6 +275,12 @@ def run(check, an: Analysis):
         check, an, _scope.wrapper_callee(an), rule='P',
         only=lambda fn, cls: fn.cls is None and fn.module.name == 'usim._primitives.notification')
     c15.check_assign_restores(check, an, 'P')
+    handler_cls = an.cls(c15.HANDLER)
+    check.instance('P', 'StateHandler:threading.local',
+                   'ext:threading.local' in handler_cls.mro,
+                   where_fn(an.method(c15.HANDLER, '__init__')),
+                   'the clock a ticker reads is the one of the simulation of its own thread')
+    _scope.check_disable_interrupts(check, an, 'P')
     check.stats.update(an.stats())
 
 
